@@ -384,14 +384,20 @@ Section Spec.
   Definition trace_eqb (a b : trace) : bool :=
     Bool.eqb (t_panicked a) (t_panicked b) && list_eqb outcome_eqb (t_events a) (t_events b).
 
+  (* what holds of every input, the known classes included: exactly one event, and it is not a panic *)
+  Definition one_nonpanic (t : trace) : bool :=
+    negb (t_panicked t) && match t_events t with [HPanic] => false | [_] => true | _ => false end.
+
   (* verdict of one correspondence case (see CONTRIBUTING.md):
-     0 agree & ok; 1 model <> implementation but ok; 2 C15_ok fails outside every known class;
-     100 fails inside unknown_status; 101 fails inside non_ascii_header *)
+     0 agree & ok; 1 model <> implementation (but the predicate that applies holds); 2 C15_ok fails
+     outside every known class, or a panic / not exactly one event anywhere; 100 / 101: C15_ok fails
+     inside unknown_status / non_ascii_header, with exactly the error value the model predicts *)
   Definition verdict (a : api) (x : expectation) (r : http_result) (impl : trace) : N :=
-    if C15_ok x r impl then
-      if trace_eqb (run mime_charset decode json a x r) impl then 0 else 1
-    else if known_non_ascii_header r then 101
-    else if known_unknown_status r then 100
+    let agree := trace_eqb (run mime_charset decode json a x r) impl in
+    if C15_ok x r impl then (if agree then 0 else 1)
+    else if negb (one_nonpanic impl) then 2
+    else if known_non_ascii_header r then (if agree then 101 else 1)
+    else if known_unknown_status r then (if agree then 100 else 1)
     else 2.
 End Spec.
 
